@@ -250,6 +250,21 @@ def body_experiment(case, ctx):
                              f"dataset_size={size}) = {est}; the kernel built from the same description has cycle "
                              f"{cycle} x {reps} repetitions",
                  {"clause": "F", "got": int(est), "cycle": cycle, "reps": reps})
+    # the same clause for a repetition count far beyond what a kernel can be enumerated for (exact integer arithmetic)
+    big = case.get("big_reps")
+    if big:
+        est = None
+        try:
+            est = RepetitionExperimentKernel.estimate_experiment_repetitions(
+                rounds=list(rounds), heralded_initialization=her, qutrit_calibration_points=cal, dataset_size=big * cycle)
+        except Exception as e:
+            ctx.fail(f"raised:{type(e).__name__}", f"estimate_experiment_repetitions(rounds={rounds}, heralded={her}, calibration={cal}, "
+                     f"dataset_size={big * cycle} = {big} x {cycle}) raised {type(e).__name__}: {str(e)[:200]}",
+                     {"clause": "F", "exception": type(e).__name__, "cycle": cycle, "reps": big, "big": True})
+            return
+        if est != big:
+            ctx.fail("estimate", f"estimate_experiment_repetitions(..., dataset_size={big} x {cycle}) = {est}",
+                     {"clause": "F", "got": int(est), "cycle": cycle, "reps": big, "big": True})
 
 
 def _strat_experiment(max_count, max_len, max_reps):
@@ -266,8 +281,10 @@ def _strat_experiment(max_count, max_len, max_reps):
         "reps": st.integers(1, max_reps),
         "ids": names,
         "unknown": st.sampled_from(["Q", "D7", "X4", "DummyID"]),
+        # a repetition count for the estimate alone (datasets far larger than any kernel that is enumerated)
+        "big_reps": st.none() | st.integers(10 ** 3, 10 ** 7) | st.integers(2 ** 52, 2 ** 62) | st.sampled_from([2 ** 53 + 1, 10 ** 17 + 1, 3002399751580331]),
     }).map(lambda d: {"rounds": d["rounds"], "heralded": d["heralded"], "calibration": d["calibration"], "reps": d["reps"],
-                      "data": d["ids"][0], "ancilla": d["ids"][1], "unknown": d["unknown"]})
+                      "data": d["ids"][0], "ancilla": d["ids"][1], "unknown": d["unknown"], "big_reps": d["big_reps"]})
 
 
 def strat_experiment():
@@ -367,6 +384,54 @@ def body_chain(case, ctx):
                         ctx.fail("coverage", f"{where}: {label} leave {missing} uncovered, expected {want} uncovered slot(s)")
 
 
+def items_general_calibration(tier):
+    starts = [0, 1, 7] if tier == "quick" else [-3, 0, 1, 2, 7, 40]
+    reps = [1, 2, 3, 5] if tier == "quick" else [1, 2, 3, 4, 5, 8, 13]
+    for her in (False, True):
+        for f_state in (False, True):
+            for r in reps:
+                for start in starts:
+                    yield {"heralded": her, "f_state": f_state, "reps": r, "start": start}
+
+
+def body_general_calibration(case, ctx):
+    """GeneralCalibrationIndexKernel: per repetition one (optional heralded, calibration) acquisition pair per state."""
+    from qce_circuit.structure.acquisition_indexing.kernel_calibration import GeneralCalibrationIndexKernel
+    from qce_circuit.structure.acquisition_indexing.intrf_index_strategy import FixedIndexStrategy
+    her, f_state, reps, start = case["heralded"], case["f_state"], case["reps"], case["start"]
+    ctx.case(case, nontrivial=reps >= 2, classes=[f"heralded={her}", f"f_state={f_state}", f"reps>=2={reps >= 2}"])
+    got = None
+    with ctx.lib("GeneralCalibrationIndexKernel"):
+        k = GeneralCalibrationIndexKernel(index_offset_strategy=FixedIndexStrategy(index=start), heralded_initialization=her,
+                                          f_state=f_state, repetitions=reps)
+        states = list(k.contained_states)
+        got = {"start": int(k.start_index), "stop": int(k.stop_index), "cycle": int(k.cycle_length),
+               "cal": {st.name: [int(i) for i in k.get_calibration_state_measurement_index(st)] for st in states},
+               "her": {st.name: [int(i) for i in k.get_heralded_state_measurement_index(st)] for st in states},
+               "n_states": len(states)}
+    if got is None:
+        return
+    n = 3 if f_state else 2
+    per = 2 if her else 1
+    cycle = n * per
+    span = list(range(start, start + cycle * reps))
+    if (got["start"], got["stop"], got["cycle"], got["n_states"]) != (start, start + cycle * reps - 1, cycle, n):
+        ctx.fail("general-calibration-span", f"{case}: start/stop/cycle/states = {got['start']}/{got['stop']}/{got['cycle']}/{got['n_states']}, "
+                 f"expected {start}/{start + cycle * reps - 1}/{cycle}/{n}")
+        return
+    names = sorted(got["cal"])
+    exp_cal = {name: [start + r * cycle + j * per + (per - 1) for r in range(reps)] for j, name in enumerate(names)}
+    exp_her = {name: ([start + r * cycle + j * per for r in range(reps)] if her else []) for j, name in enumerate(names)}
+    if got["cal"] != exp_cal or got["her"] != exp_her:
+        ctx.fail("general-calibration-indices", f"{case}: calibration indices {got['cal']} heralded {got['her']}; the kernel "
+                 f"[{start}, {start + cycle * reps - 1}] holds per repetition one {'(heralded, calibration) pair' if her else 'calibration acquisition'} "
+                 f"per state in state order: calibration {exp_cal}, heralded {exp_her}")
+        return
+    allidx = sorted(i for d in (got["cal"], got["her"]) for v in d.values() for i in v)
+    if allidx != span:
+        ctx.fail("general-calibration-tiling", f"{case}: categories cover {allidx}, kernel is {span}")
+
+
 def strat_chain():
     from hypothesis import strategies as st
     rep = st.fixed_dictionaries({"t": st.just("rep"), "n": st.one_of(st.sampled_from([0, 1, 2]), st.integers(0, 12)), "h": st.booleans()})
@@ -385,5 +450,6 @@ def parts():
         Part("experiment_small", body_experiment, items=items_experiment_small, exhaustive=True),
         Part("experiment", body_experiment, strategy=strat_experiment, quick=2500, thorough=12000),
         Part("experiment_large", body_experiment, strategy=strat_experiment_large, quick=0, thorough=4000),
+        Part("general_calibration", body_general_calibration, items=items_general_calibration, exhaustive=True),
         Part("chain", body_chain, strategy=strat_chain, quick=1500, thorough=8000),
     ]
